@@ -133,6 +133,22 @@ pub fn forget_variable(scopes: &mut [Scope], name: &str) {
     }
 }
 
+/// The local slot of every variable bound in the current scope. Compared with a later state of
+/// the scope it tells which bindings are new: a name that is bound again gets another slot.
+pub fn variable_slots(scopes: &[Scope]) -> HashMap<String, usize> {
+    let Some(scope) = scopes.last() else {
+        return HashMap::new();
+    };
+    scope
+        .bindings
+        .iter()
+        .filter_map(|(name, binding)| match binding {
+            Binding::Variable { index, .. } => Some((name.clone(), *index)),
+            Binding::TypeAlias(_) => None,
+        })
+        .collect()
+}
+
 /// Define a new type alias in the current scope
 pub fn define_type_alias(scopes: &mut [Scope], name: String, type_alias: TypeAliasDef) {
     if let Some(scope) = scopes.last_mut() {
